@@ -272,6 +272,10 @@ def run_python(history, oids, server_version='5.0.5', probe=None):
     res = []
     try:
         for op in history:
+            if op[0] == 'noobs':
+                out, extra = pr.apply(op[1])
+                res.append((canon_out(out, oids), '_', extra, out, None))
+                continue
             out, extra = pr.apply(op)
             obs = pr.observe()
             if probe is not None:
@@ -308,6 +312,9 @@ def split_steps(line):
             cur.append(t)
     res = []
     for s in steps:
+        if s and s[-1] == '_':
+            res.append((s[:-1], ['_']))
+            continue
         # the observation is the trailing `{ … }` value: find its start by bracket matching
         depth = 0
         i = len(s) - 1
